@@ -20,7 +20,7 @@ RULE = ('generated projects (static/shared/dual libraries, executables using the
         'finding is recorded as open). W:emit: random scripts driven through the real builtins in an '
         'in-process build context (compile with header file objects / pch given as object or by name / extra_deps / a second output, '
         'static and shared libraries with libs=, executables sharing object files, nested output directories, command and build_step with '
-        'file nodes in the command line, 1-3 outputs, always_outdated, copy_file, alias, test, test_deps, default, install): per edge the '
+        'file nodes in the command line, 1-3 outputs, always_outdated, copy_file in the modes copy / symlink / hardlink, alias, test, test_deps, default, install): per edge the '
         'Rule / Build tuples of the real Make and Ninja handlers vs Graph/Emit.v, per script the hooks, and - independent of the model - the '
         'prerequisites of every output vs what the SCRIPT declares (written down by the generator from the arguments it passes). '
         'R:stampsem: (a) stamp-shaped rule graphs (2-3 outputs, 1-3 consumers, chains, goal orders, touch / delete of inputs, outputs, '
@@ -460,8 +460,11 @@ def real_script(rng, rep, ctx, build):
     for i in range(rng.randint(0, 2)):
         src, extra = rng.choice(plain + produced[:1]), some(plain + produced[-1:], 0, 1)
         nm_ = rng.choice(['', 'out/', 'out/a/b/']) + 'copy%d.txt' % i
-        c = ctx['copy_file'](nm_, src, extra_deps=extra)
-        decl.append((c, {src} | set(extra), call('copy_file', nm_, src, extra_deps=extra)))
+        # every mode: a symbolic or hard link consumes the file it is made from exactly as a copy does
+        mode = rng.choice(['copy', 'symlink', 'hardlink'])
+        c = ctx['copy_file'](nm_, src, extra_deps=extra, mode=mode)
+        rep.count('w-emit:copy_file mode=' + mode)
+        decl.append((c, {src} | set(extra), call('copy_file', nm_, src, extra_deps=extra, mode=mode)))
         copies.append(c)
         produced.append(c)
     if rng.random() < 0.7:
@@ -1101,6 +1104,12 @@ def step_id(argv, srcroot):
     for a in argv:
         if a.startswith(srcroot + '/') and a.endswith('.c'):
             return 'compile:' + a[len(srcroot) + 1:]
+    for a in argv:
+        if a.startswith(srcroot + '/') and a.endswith('.y'):
+            return 'generate:' + a[len(srcroot) + 1:]          # a source translated to C first (the yacc stand-in)
+    if '-c' in argv[:-1] and argv[argv.index('-c') + 1].endswith('.c'):
+        g = argv[argv.index('-c') + 1]
+        return 'compile-generated:' + (g[2:] if g.startswith('./') else g)
     if '-o' in argv:
         outs = [argv[i + 1] for i, a in enumerate(argv[:-1]) if a == '-o']
         if outs and outs[0].startswith('out1'):
@@ -1132,6 +1141,10 @@ def expected_graph(p):
                 if not libs_used_by.get(st['owner']):
                     d = set()        # a library no executable uses is not reachable from the goals make is given
             down[st['source']] = d
+    for st in p.steps:
+        if st['kind'] == 'generate':
+            # the translated source: translator, compiler of what it wrote, link of the program that contains it
+            down[st['source']] = {'generate:' + st['source'], 'compile-generated:' + st['outputs'][0], 'link:' + st['owner']}
     down['gen.in'] = {'build_step'}
     return down
 
